@@ -19,6 +19,7 @@ import common  # noqa: E402
 ENGINES = {
     "C02": ["e1"], "C03": ["e1"], "C04": ["e1"], "C05": ["e1"], "C06": ["e1"], "C08": ["e1"],
     "C09": ["e1"], "C14": ["e1"],
+    "C07": ["e3"], "C12": ["e3"], "C13": ["e3"],
 }
 
 
